@@ -75,6 +75,14 @@ META = {
             "Accepted strings must be well-formed literals denoting their exact base-10 value and print back exactly; the "
             "executable must not accept a literal and silently read another value; no crash.",
             "Own lenient literal grammar and python Fractions as oracle; exhaustive only up to length 4 (quick) / 6 (thorough).", "4/C16"),
+    "C17": ("outputs", "round-trip monitor: every printed object is tokenised strictly and read back by opensmt and z3",
+            "Scripts whose user symbols come from a hostile pool (reserved words, names needing |quotes|, number-like "
+            "names, names equal to model formals) print models, values, interpolants, full cores and dumped queries; each "
+            "printed object must consist of valid SMT-LIB tokens, be accepted by a fresh opensmt with the original "
+            "declarations (model + assertions sat, formulas parse, dumped query gives the same answer) and by z3.",
+            "Names starting with '@' or '.' (reserved for solvers by SMT-LIB) and names of theory symbols are not generated; "
+            "z3 is skipped for scripts using quoted reserved words (z3 treats |as|, |forall| as the reserved word); sort "
+            "names stay simple.", "4/C17"),
     "C18": ("procmon", "AddressSanitizer+UBSan build of the executable under injected-problem, mutation and grammar workloads",
             "Every run of the sanitizer build (file and pipe mode) must end without signal, sanitizer report or uncaught "
             "exception, exit in {0,1}; exactly-one-injected-problem scripts must print a diagnostic and exit non-zero; a "
@@ -173,9 +181,9 @@ ENGINES = [
      "kind_free_text": "guarded hooks writing an event log (assertions, roots, clause stream, theory clauses, Farkas certificates) + offline checkers"},
     {"name": "apiharness", "path": "harness/*.cc, vlib/checks/apiharness.py", "serves_properties": ["C14", "C15", "C16", "C28"],
      "kind_free_text": "C++ harnesses linked against libopensmt.a (ASan/UBSan or release flavour) with reference-model oracles"},
-    {"name": "outputs", "path": "vlib/checks/models.py, cores.py, itp.py, vlib/outputs.py",
-     "serves_properties": ["C03", "C06", "C07", "C08", "C09"],
-     "kind_free_text": "offline checkers over what opensmt prints (models, values, assignments, cores, interpolants)"},
+    {"name": "outputs", "path": "vlib/checks/models.py, cores.py, itp.py, printing.py, rejected.py, scopes.py, vlib/outputs.py",
+     "serves_properties": ["C03", "C06", "C07", "C08", "C09", "C17", "C19", "C21"],
+     "kind_free_text": "offline checkers over what opensmt prints (models, values, assignments, cores, interpolants, dumped queries; acceptance pattern of commands)"},
 ]
 
 if __name__ == "__main__":
